@@ -10,7 +10,10 @@ import (
 	"sort"
 	"strconv"
 	"strings"
+	"sync"
+	"time"
 
+	"github.com/asynkron/protoactor-go/actor"
 	"github.com/sirupsen/logrus"
 	"go.etcd.io/etcd/api/v3/mvccpb"
 	clientv3 "go.etcd.io/etcd/client/v3"
@@ -18,6 +21,7 @@ import (
 	"github.com/dfklegend/cell2/node/app"
 	"github.com/dfklegend/cell2/node/cluster"
 	"github.com/dfklegend/cell2/node/cluster/clusterproviders/etcd"
+	"github.com/dfklegend/cell2/node/config"
 	"github.com/dfklegend/cell2/utils/logger"
 
 	"verifh/hx"
@@ -34,8 +38,30 @@ var (
 
 func memberID(k int64) string { return fmt.Sprintf("n%d", k) }
 func nodeID(k int64) string   { return fmt.Sprintf("%s@n%d", clusterName, k) }
-func host(a int64) string     { return fmt.Sprintf("h%d", a) }
-func port(a int64) int        { return int(1000 + a) }
+
+// address tokens: a >= 0 -> host h<a>, port 1000+a; -1 -> the provider's "nonhost" pseudo address
+// (host "nonhost", port -1); anything below -1 -> a string that is no host:port at all
+func host(a int64) string {
+	if a < 0 {
+		return "nonhost"
+	}
+	return fmt.Sprintf("h%d", a)
+}
+func port(a int64) int {
+	if a < 0 {
+		return -1
+	}
+	return int(1000 + a)
+}
+func addrString(a int64) string {
+	switch {
+	case a == -1:
+		return "nonhost"
+	case a < -1:
+		return "garbage"
+	}
+	return fmt.Sprintf("%s:%d", host(a), port(a))
+}
 func typeName(t int64) string { return fmt.Sprintf("t%d", t) }
 func svcName(n int64) string  { return fmt.Sprintf("s%d", n) }
 
@@ -93,6 +119,9 @@ func svcTerm(s string) hx.T {
 }
 
 func addrTok(h string, p int) int64 {
+	if h == "nonhost" && p == -1 {
+		return -1
+	}
 	a := numAfter(h, "h")
 	if a >= 0 && port(a) != p {
 		return -903
@@ -114,11 +143,22 @@ func parseNode(t hx.T) nodeRec {
 }
 
 // the JSON value a node registers (the real Node.Serialize)
-func (n nodeRec) json() []byte {
-	nd := etcd.NewNode(nodeID(n.id), host(n.addr), port(n.addr), svcStrings(n.svcs))
+func (n nodeRec) node() *etcd.Node {
+	sv := svcStrings(n.svcs)
+	if len(sv) == 0 && n.id%2 == 1 {
+		sv = nil // "services":null - MemberStatus turns it into an empty list
+	}
+	nd := etcd.NewNode(nodeID(n.id), host(n.addr), port(n.addr), sv)
+	if n.addr%2 == 1 {
+		nd.Host = "" // GetAddress falls back to Address
+	}
 	nd.SetState(int(n.state))
 	nd.SetAlive(n.alive)
-	b, err := nd.Serialize()
+	return nd
+}
+
+func (n nodeRec) json() []byte {
+	b, err := n.node().Serialize()
 	if err != nil {
 		panic(err)
 	}
@@ -219,20 +259,24 @@ func queryAll(c *app.Cluster) hx.T {
 
 // ---------------------------------------------------------------- recording ICluster
 
-// recorder is the ICluster the provider talks to.  Every published list is put into a
-// canonical order (the provider's order is that of a Go map), recorded, handed to the real
-// app.Cluster.UpdateClusterTopology, and the real getters are queried right away - on the
-// goroutine that runs _keepWatching, i.e. before the next response is handled.
+// recorder is the ICluster the provider talks to.  It embeds the REAL app.Cluster of the global
+// app.Node (GetAddress / GetName / GetID come from Cluster.InitSelf); the node's services and
+// state are overridden so that arbitrary records can be tried.  Every published list is put into
+// a canonical order (the provider's order is that of a Go map), recorded, handed to the real
+// Cluster.UpdateClusterTopology, and the real getters are queried right away - on the goroutine
+// that runs _keepWatching, i.e. before the next response is handled.
 type recorder struct {
+	*app.Cluster
 	self nodeRec
-	c    *app.Cluster
-	pubs []hx.T // BPub terms in publication order
-	big  bool   // some publication had >= 2 members
+	mu   sync.Mutex
+	pubs []pubRec
 }
 
-func (r *recorder) GetAddress() string    { return fmt.Sprintf("%s:%d", host(r.self.addr), port(r.self.addr)) }
-func (r *recorder) GetName() string       { return clusterName }
-func (r *recorder) GetID() string         { return memberID(r.self.id) }
+type pubRec struct {
+	members []any
+	answers hx.T
+}
+
 func (r *recorder) GetState() int         { return int(r.self.state) }
 func (r *recorder) GetServices() []string { return svcStrings(r.self.svcs) }
 
@@ -243,20 +287,78 @@ func (r *recorder) UpdateClusterTopology(ms []*cluster.Member) {
 	for i, m := range sorted {
 		mt[i] = memberTerm(m)
 	}
-	if len(sorted) >= 2 {
-		r.big = true
-	}
-	r.c.UpdateClusterTopology(sorted)
-	r.pubs = append(r.pubs, hx.C("BPub", mt, queryAll(r.c)))
+	r.Cluster.UpdateClusterTopology(sorted)
+	q := queryAll(r.Cluster)
+	r.mu.Lock()
+	r.pubs = append(r.pubs, pubRec{mt, q})
+	r.mu.Unlock()
 }
 
-// ---------------------------------------------------------------- executing a case
+func (r *recorder) take() (pubRec, bool) {
+	r.mu.Lock()
+	defer r.mu.Unlock()
+	if len(r.pubs) == 0 {
+		return pubRec{}, false
+	}
+	p := r.pubs[0]
+	r.pubs = r.pubs[1:]
+	return p, true
+}
 
-func watchResponse(p *etcd.Provider, evs []any) clientv3.WatchResponse {
+func (r *recorder) pending() int {
+	r.mu.Lock()
+	defer r.mu.Unlock()
+	return len(r.pubs)
+}
+
+// ---------------------------------------------------------------- one provider life
+
+type life struct {
+	p    *etcd.Provider
+	f    *fakeEtcd
+	rec  *recorder
+	key0 string // key prefix of the cluster, "/cell2/ut/"
+}
+
+const baseKey = "/cell2"
+
+func clusterPrefix() string { return baseKey + "/" + clusterName + "/" }
+func keyOf(k int64) string  { return clusterPrefix() + nodeID(k) }
+
+func keyTok(key string) int64 {
+	if !strings.HasPrefix(key, clusterPrefix()) {
+		return -906
+	}
+	return numAfter(key[len(clusterPrefix()):], clusterName+"@n")
+}
+
+// the record a stored JSON value decodes to (real NewNodeFromBytes), projected to tokens
+func recordTerm(val []byte) hx.T {
+	n, err := etcd.NewNodeFromBytes(val)
+	if err != nil {
+		return hx.C("Nd", int64(-908), false, int64(0), int64(0), []any{})
+	}
+	h, p := n.GetAddress()
+	sv := make([]any, len(n.Services))
+	for i, s := range n.Services {
+		sv[i] = svcTerm(s)
+	}
+	return hx.C("Nd", numAfter(n.ID, clusterName+"@n"), n.IsAlive(), int64(n.State), addrTok(h, p), sv)
+}
+
+func regTerms(recs []kvRec) []any {
+	out := []any{}
+	for _, r := range recs {
+		out = append(out, hx.Pair{A: keyTok(r.key), B: recordTerm([]byte(r.val))})
+	}
+	return out
+}
+
+func watchResponse(evs []any) clientv3.WatchResponse {
 	resp := clientv3.WatchResponse{}
 	for _, e := range evs {
 		ev := hx.AsTerm(e)
-		key := []byte(p.VerifKey(nodeID(ev.Int(0))))
+		key := []byte(keyOf(ev.Int(0)))
 		switch ev.Name {
 		case "EPut":
 			resp.Events = append(resp.Events, &clientv3.Event{Type: mvccpb.PUT,
@@ -278,61 +380,256 @@ func watchResponse(p *etcd.Provider, evs []any) clientv3.WatchResponse {
 	return resp
 }
 
-// Exec runs one op list and returns one observation per op.  Consecutive OBatch ops are fed
-// to ONE run of the real _keepWatching (one injected watch channel); its publications are
-// attributed in order to the non-empty responses.
+// start runs the REAL StartMember: init, fetchNodes (Get on the fake KV), updateNodesWithSelf,
+// publish, startWatching (Watch on the fake Watcher), registerService and startKeepAlive (Put /
+// KeepAlive on the fake KV / Lease).
+func start(self nodeRec, listing []any) (*life, any) {
+	c := app.Node.GetCluster()
+	c.InitSelf(addrString(self.addr), &config.ClusterInfo{Enable: true, Name: clusterName}, memberID(self.id), nil, nil)
+	rec := &recorder{Cluster: c, self: self}
+	f := newFake()
+	for _, l := range listing {
+		lt := hx.AsTerm(l)
+		switch lt.Name {
+		case "LNode":
+			n := parseNode(lt.Term(0))
+			f.listing = append(f.listing, &mvccpb.KeyValue{Key: []byte(keyOf(n.id)), Value: n.json()})
+		case "LJunk":
+			f.listing = append(f.listing, &mvccpb.KeyValue{Key: []byte(keyOf(99)), Value: []byte("{not json")})
+		case "LFail":
+			f.getErr = true
+		default:
+			panic("c08: bad listing entry " + lt.Name)
+		}
+	}
+	p, err := etcd.VerifNewProviderWithClient(baseKey, fakeKV{f: f}, fakeWatcher{f: f}, fakeLeaser{f: f}, fakeLease)
+	if err != nil {
+		panic(err)
+	}
+	p.VerifSetRetryInterval(2 * time.Millisecond)
+	if err := p.StartMember(rec); err != nil {
+		return nil, "BFail"
+	}
+	app.Node.SetProvider(p)
+	okW, okK := waitSig(f.watchSig), waitSig(f.kaSig)
+	l := &life{p: p, f: f, rec: rec}
+	f.mu.Lock()
+	wired := okW && okK &&
+		len(f.getKeys) == 1 && f.getKeys[0] == clusterPrefix() && f.getPref[0] &&
+		len(f.watchKeys) == 1 && f.watchKeys[0] == clusterPrefix() && f.watchPref[0] && f.watchRevs[0] == 0 &&
+		len(f.kaIDs) == 1 && f.kaIDs[0] == fakeLease
+	f.mu.Unlock()
+	pub, ok := rec.take()
+	if !ok {
+		return l, "BNone"
+	}
+	return l, hx.C("BStart", regTerms(f.putsFrom(0)), wired, pub.members, pub.answers)
+}
+
+// end stops a provider life the way a node stops it (real Shutdown: deregister, cancel the
+// watch) and lets the two goroutines run out: the client closes a watch channel whose context is
+// cancelled, and the keep-alive channel.
+func (l *life) end() (key int64, cancelled bool) {
+	nd := len(l.f.dels)
+	l.p.Shutdown(true)
+	app.Node.SetProvider(nil)
+	ch, ctx, _ := l.f.curWatch()
+	cancelled = ctx != nil && ctx.Err() != nil
+	l.f.mu.Lock()
+	key = -907
+	if len(l.f.dels) == nd+1 {
+		key = keyTok(l.f.dels[nd])
+	}
+	ka := l.f.kaCh
+	l.f.watchCh, l.f.kaCh = nil, nil
+	l.f.mu.Unlock()
+	if ch != nil {
+		close(ch)
+	}
+	if ka != nil {
+		// a keep-alive response that arrives after Shutdown ends keepAliveForever
+		select {
+		case ka <- &clientv3.LeaseKeepAliveResponse{ID: fakeLease, TTL: 3}:
+		case <-time.After(syncTimeout()):
+		}
+		close(ka)
+	}
+	return
+}
+
+// ---------------------------------------------------------------- executing a case
+
+func pubObs(kind string, p pubRec) hx.T { return hx.C(kind, p.members, p.answers) }
+
+// Exec runs one op list and returns one observation per op.  Consecutive OBatch ops go to the
+// provider's watch goroutine one response after the other on the channel its Watch call got; an
+// empty response after the group is the barrier (the channel is unbuffered, so when the barrier
+// is taken everything before it has been handled and published).
 func Exec(ops []hx.T) (obs []any, nontrivial bool) {
-	var p *etcd.Provider
-	var rec *recorder
+	var cur *life
+	defer func() {
+		if cur != nil {
+			cur.end()
+		}
+	}()
+	// the directory of the global node starts empty in every case
+	app.Node.GetCluster().UpdateClusterTopology(nil)
 	i := 0
 	for i < len(ops) {
 		o := ops[i]
 		switch o.Name {
 		case "OStart":
-			rec = &recorder{self: parseNode(o.Term(0)), c: app.NewCluster()}
-			var listing [][]byte
-			for _, n := range o.List(1) {
-				listing = append(listing, parseNode(hx.AsTerm(n)).json())
+			if cur != nil {
+				cur.end()
+				cur = nil
 			}
-			var err error
-			p, err = etcd.VerifNewProvider(rec, listing)
-			if err != nil {
-				panic(err)
-			}
-			obs = append(obs, takePubs(rec, 1)...)
+			var ob any
+			cur, ob = start(parseNode(o.Term(0)), o.List(1))
+			obs = append(obs, ob)
 			i++
 		case "OBatch":
 			j := i
 			for j < len(ops) && ops[j].Name == "OBatch" {
 				j++
 			}
-			if p == nil {
+			if cur == nil {
 				for ; i < j; i++ {
 					obs = append(obs, "BNone")
 				}
 				break
 			}
-			var resps []clientv3.WatchResponse
-			for k := i; k < j; k++ {
-				resps = append(resps, watchResponse(p, ops[k].List(0)))
+			alive := true
+			for k := i; k < j && alive; k++ {
+				alive = cur.f.send(watchResponse(ops[k].List(0)))
 			}
-			if err := p.VerifFeed(resps); err != nil {
-				panic(err)
+			if alive {
+				cur.f.send(clientv3.WatchResponse{}) // barrier
 			}
 			for k := i; k < j; k++ {
 				if len(ops[k].List(0)) == 0 {
 					obs = append(obs, "BNone")
-				} else if len(rec.pubs) > 0 {
-					obs = append(obs, takePubs(rec, 1)...)
-					nontrivial = nontrivial || rec.big
+				} else if p, ok := cur.rec.take(); ok {
+					obs = append(obs, pubObs("BPub", p))
+					if len(p.members) >= 2 {
+						nontrivial = true
+					}
 				} else {
 					obs = append(obs, "BNone")
 				}
 			}
 			// publications nobody asked for (e.g. for an empty response) make the
 			// observation list longer than the op list, which the comparison rejects
-			obs = append(obs, takePubs(rec, len(rec.pubs))...)
+			for cur.rec.pending() > 0 {
+				p, _ := cur.rec.take()
+				obs = append(obs, pubObs("BPub", p))
+			}
 			i = j
+		case "OSelfState":
+			// the node changes its own state: App.UpdateNodeState -> Provider.UpdateClusterState;
+			// the next keep-alive tick makes keepAliveForever revoke the lease and register again
+			if cur == nil {
+				obs = append(obs, "BNone")
+			} else {
+				before := cur.f.putCount()
+				app.Node.UpdateNodeState(int(o.Int(0)))
+				ok := cur.f.sendKeepAlive() && waitSig(cur.f.kaSig)
+				recs := cur.f.putsFrom(before)
+				switch {
+				case !ok || len(recs) == 0:
+					obs = append(obs, "BNone")
+				case len(recs) == 1:
+					obs = append(obs, hx.C("BReg", keyTok(recs[0].key), recordTerm([]byte(recs[0].val))))
+				default:
+					obs = append(obs, hx.C("BReg", int64(-907), recordTerm([]byte(recs[len(recs)-1].val))))
+				}
+				nontrivial = true
+			}
+			i++
+		case "OLeaseLost":
+			// the keep-alive stream ends (lease expired / connection lost): keepAliveForever
+			// returns, startKeepAlive registers the node again (after retryInterval if the first
+			// attempt fails)
+			if cur == nil {
+				obs = append(obs, "BNone")
+			} else {
+				before := cur.f.putCount()
+				cur.f.mu.Lock()
+				switch o.Int(0) {
+				case 1:
+					cur.f.putFail = 1
+				case 2:
+					cur.f.kaFail = 1
+				}
+				ka := cur.f.kaCh
+				cur.f.kaCh = nil
+				cur.f.mu.Unlock()
+				if ka != nil {
+					close(ka)
+				}
+				ok := waitSig(cur.f.kaSig)
+				recs := cur.f.putsFrom(before)
+				want := 1
+				if o.Int(0) == 2 {
+					want = 2 // the attempt whose KeepAlive failed had registered already
+				}
+				switch {
+				case !ok || len(recs) == 0:
+					obs = append(obs, "BNone")
+				case len(recs) == want && (want == 1 || recs[0] == recs[1]):
+					obs = append(obs, hx.C("BReg", keyTok(recs[0].key), recordTerm([]byte(recs[0].val))))
+				default:
+					obs = append(obs, hx.C("BReg", int64(-907), recordTerm([]byte(recs[len(recs)-1].val))))
+				}
+			}
+			i++
+		case "ORewatch":
+			// the watch stream ends (0: closed by the client, otherwise: an error response);
+			// the provider's loop must open a new watch and keep folding
+			if cur == nil {
+				obs = append(obs, "BNone")
+			} else {
+				ch, _, _ := cur.f.curWatch()
+				switch {
+				case ch == nil:
+				case o.Int(0) == 0:
+					close(ch)
+				case o.Int(0) == 1:
+					cur.f.send(clientv3.WatchResponse{CompactRevision: 5})
+				default:
+					cur.f.send(clientv3.WatchResponse{Canceled: true})
+				}
+				// that stream is over; the provider's next Watch call installs a new channel
+				cur.f.mu.Lock()
+				if cur.f.watchCh == ch {
+					cur.f.watchCh = nil
+				}
+				cur.f.mu.Unlock()
+				ok := waitSig(cur.f.watchSig)
+				_, _, n := cur.f.curWatch()
+				if !ok {
+					n = -909
+				}
+				obs = append(obs, hx.C("BWatch", int64(n), cur.p.GetHealthStatus() == nil))
+			}
+			i++
+		case "OShutdown":
+			if cur == nil {
+				obs = append(obs, "BNone")
+			} else {
+				k, c := cur.end()
+				cur = nil
+				obs = append(obs, hx.C("BDown", k, c))
+			}
+			i++
+		case "OQuery":
+			obs = append(obs, hx.C("BQuery", queryExt()))
+			i++
+		case "ONode":
+			obs = append(obs, nodeRoundTrip(parseNode(o.Term(0))))
+			i++
+		case "OSelfCluster":
+			obs = append(obs, selfCluster(o.Int(0), o.Int(1), o.List(2)))
+			i++
 		case "OStress":
 			ok, differ := stress(hx.Terms(o.Args[0]), hx.Terms(o.Args[1]))
 			obs = append(obs, hx.C("BStress", ok))
@@ -345,16 +642,138 @@ func Exec(ops []hx.T) (obs []any, nontrivial bool) {
 	return
 }
 
-func takePubs(r *recorder, n int) []any {
-	out := []any{}
-	for k := 0; k < n && k < len(r.pubs); k++ {
-		out = append(out, r.pubs[k])
+// ---------------------------------------------------------------- the other getters (node/app/utils.go)
+
+func pidTerm(p *actor.PID, wantID string) any {
+	if p == nil {
+		return "None"
 	}
-	r.pubs = r.pubs[len(out):]
-	for len(out) < n {
-		out = append(out, "BNone")
+	a := int64(-904)
+	if hp := strings.Split(p.Address, ":"); len(hp) == 2 {
+		if n, err := strconv.Atoi(hp[1]); err == nil {
+			a = addrTok(hp[0], n)
+		}
 	}
-	return out
+	if wantID != "" && p.Id != wantID {
+		a = -905
+	}
+	return hx.C("Some", a)
+}
+
+func optItem(it *app.ServiceItem) any {
+	if it == nil {
+		return "None"
+	}
+	return hx.C("Some", itemTerm(it))
+}
+
+func optName(s string) any {
+	if s == "" {
+		return "None"
+	}
+	return hx.C("Some", numAfter(s, "s"))
+}
+
+func optLen(l *app.ServiceList) any {
+	if l == nil {
+		return "None"
+	}
+	return hx.C("Some", int64(len(l.Items)))
+}
+
+// queryExt asks the package-level getters of node/app (they go through the global app.Node and
+// its Cluster): first / random picks per type, PIDs per name.
+func queryExt() hx.T {
+	ts, ns := []any{}, []any{}
+	for _, t := range probeTypes {
+		tn := typeName(t)
+		ts = append(ts, hx.C("QT", t,
+			optItem(app.GetFirstServiceItem(tn)), optItem(app.GetFirstWorkServiceItem(tn)),
+			pidTerm(app.GetFirstService(tn), ""), pidTerm(app.GetFirstWorkService(tn), ""),
+			optItem(app.RandGetServiceItem(tn)), optItem(app.RandGetWorkServiceItem(tn)),
+			pidTerm(app.RandGetService(tn), ""), pidTerm(app.RandGetWorkService(tn), ""),
+			optName(app.RandGetServiceName(tn)), optName(app.RandGetWorkServiceName(tn)),
+			optLen(app.GetServices(tn)), optLen(app.GetWorkServices(tn))))
+	}
+	for _, n := range probeNames {
+		sn := svcName(n)
+		ns = append(ns, hx.C("QN", n, pidTerm(app.GetServicePID(sn), sn), pidTerm(app.GetWorkServicePID(sn), sn),
+			pidTerm(app.Node.GetService(sn), sn)))
+	}
+	return hx.C("Ext", ts, ns)
+}
+
+// ---------------------------------------------------------------- node.go directly
+
+// nodeRoundTrip: what the fold assumes about etcd.Node - Serialize / NewNodeFromBytes /
+// Deserialize keep id, alive, state, address and services; a dead clone leaves the original
+// alive; Equal is by id.
+func nodeRoundTrip(r nodeRec) hx.T {
+	nd := r.node()
+	b, err := nd.Serialize()
+	if err != nil {
+		return hx.C("BNode", recordTerm(nil), false)
+	}
+	n2, err2 := etcd.NewNodeFromBytes(b)
+	n3 := &etcd.Node{}
+	err3 := n3.Deserialize(b)
+	ok := err2 == nil && err3 == nil
+	if ok {
+		h2, p2 := n2.GetAddress()
+		h3, p3 := n3.GetAddress()
+		ok = n2.ID == n3.ID && n2.IsAlive() == n3.IsAlive() && n2.State == n3.State && h2 == h3 && p2 == p3 &&
+			strings.Join(n2.Services, "\x00") == strings.Join(n3.Services, "\x00")
+		cloned := *n2
+		cloned.SetAlive(false)
+		ok = ok && !cloned.IsAlive() && n2.IsAlive() == r.alive && cloned.ID == n2.ID && cloned.State == n2.State
+		other := etcd.NewNode(n2.ID+"x", "h", 1, nil)
+		var nilNode *etcd.Node
+		ok = ok && n2.Equal(n2) && n2.Equal(n3) && n3.Equal(n2) && !n2.Equal(other) && !n2.Equal(nil) && !nilNode.Equal(n2)
+		_, has := n2.GetMeta("k") // Meta is not serialised
+		n2.SetMeta("k", "v")
+		v, has2 := n2.GetMeta("k")
+		ok = ok && !has && has2 && v == "v"
+		cn, mn := app.SplitNodeId(nodeID(r.id)) // the provider names nodes cluster@member
+		ok = ok && cn == clusterName && mn == memberID(r.id)
+		if a, b := app.SplitNodeId("no-at-sign"); a != "" || b != "" {
+			ok = false
+		}
+		ms := n2.MemberStatus()
+		ok = ok && ms.Id == n2.ID && ms.Services != nil && len(ms.Services) == len(n2.Services) && ms.State == n2.State
+	}
+	return hx.C("BNode", recordTerm(b), ok)
+}
+
+// ---------------------------------------------------------------- cluster.go: the self cluster
+
+// selfCluster is ClusterModule.makeSelfCluster (cluster disabled): the real Cluster.InitSelf
+// (makeFullNameServices from the service configuration), BuildSelfClusterTopology and
+// UpdateClusterTopology.  svcs: (name, configured type); type 0 = no configuration entry.
+func selfCluster(id, addr int64, svcs []any) hx.T {
+	c := app.Node.GetCluster()
+	var names []string
+	cfg := map[string]*config.ServiceInfo{}
+	for _, s := range svcs {
+		p := s.(hx.Pair)
+		n, t := p.A.(int64), p.B.(int64)
+		names = append(names, svcName(n))
+		if t != 0 {
+			cfg[svcName(n)] = &config.ServiceInfo{Type: typeName(t)}
+		}
+	}
+	c.InitSelf(addrString(addr), &config.ClusterInfo{Enable: false, Name: clusterName}, memberID(id), names, cfg)
+	ms := c.BuildSelfClusterTopology()
+	consistent := c.GetID() == memberID(id) && c.GetName() == clusterName && c.GetAddress() == addrString(addr) &&
+		c.GetState() == 1 && len(ms) == 1 && strings.Join(ms[0].Services, "\x00") == strings.Join(c.GetServices(), "\x00")
+	c.UpdateClusterTopology(ms)
+	mt := []any{}
+	for _, m := range ms {
+		mt = append(mt, memberTerm(m))
+	}
+	if !consistent {
+		mt = append(mt, hx.C("Mb", int64(-910), int64(0), int64(0), []any{}))
+	}
+	return hx.C("BPub", mt, queryAll(c))
 }
 
 func init() {
